@@ -13,7 +13,8 @@ import (
 
 // ---- C14: Hosts matcher ---------------------------------------------------------------------------
 
-var hostLits = []string{"\u00e9cole.example.com", "\u043f\u0440\u0438\u043c\u0435\u0440.example.com", "api.example.com", "www.example.com", "a.example.com", "b.example.com", "c.example.com", "d.example.com", "e.example.com", "example.com", "x.org", "api.x.org"}
+var hostLits = []string{"\u00e9cole.example.com", "\u043f\u0440\u0438\u043c\u0435\u0440.example.com", "api.example.com", "www.example.com", "a.example.com", "b.example.com", "c.example.com", "d.example.com", "e.example.com", "example.com", "x.org", "api.x.org",
+	"::1", "2001:db8::2", "2001:db8::3", "fe80::a"} // IPv6 literals as domains: their last group looks like a port
 var hostPats = []string{"{n:\\d+}.a.example.com", "{n:\\d+}.b.example.com", "{s:[a-z]+}.a.x.org", "{s:[a-z]+}.b.x.org", "{sub}.example.com", "{sub:[a-z]+}.example.com", "{n:\\d+}.example.com", "{sub:word}.example.com", "{a}.{b}.example.com", "{-ign}.x.org", "s.{zone}.example.com", "{w:digit}.x.org", "{any}",
 	// a parameter node that later registrations split inside its literal tail, with parameter siblings at the split point
 	"{sub}.example.{tld:[a-z]+}", "{sub}.example.{n:\\d+}", "{sub}.example.org", "{sub}.example.net", "{sub}.example.io", "{sub}.example.dev", "{sub}.example.{tld}"}
@@ -458,7 +459,15 @@ func execC14(w *World, st *Stats) (*Violation, RunInfo) {
 			}
 			mutated = true
 			// every earlier probe whose domain is still registered keeps its outcome
-			for host, prev := range lastOutcome {
+			// (in sorted order: each probe takes a context from the process-wide pool, and which pooled
+			// object later worlds get must not depend on Go's map iteration order)
+			probeHosts := make([]string, 0, len(lastOutcome))
+			for host := range lastOutcome {
+				probeHosts = append(probeHosts, host)
+			}
+			sortStrings(probeHosts)
+			for _, host := range probeHosts {
+				prev := lastOutcome[host]
 				if !strings.HasPrefix(prev, "match ") {
 					continue
 				}
@@ -637,7 +646,7 @@ func genMSpec(r *Rng, depth int) *MSpec {
 		return &MSpec{K: "pv", A: a}
 	case 5:
 		// "param@key": the Accept parameter that carries the version ("version" when absent)
-		return &MSpec{K: "hv", A: []string{pick(r, []string{"hver", "", "hver@v", "@v", "hv2@v"}), pick(r, []string{"1", "2"}), "3"}}
+		return &MSpec{K: "hv", A: []string{pick(r, []string{"hver", "", "hver@v", "@v", "hv2@v"}), pick(r, []string{"1", "2", ""}), "3"}}
 	case 6, 7:
 		n := r.Range(2, 3)
 		s := &MSpec{K: "and"}
@@ -705,7 +714,7 @@ func genC13(r *Rng, idx int, tier string) *World {
 	nreq := r.Range(6, 20)
 	for i := 0; i < nreq; i++ {
 		q := Req{Method: pick(r, []string{"GET", "GET", "GET", "POST", "OPTIONS", "TRACE"}),
-			Path: pick(r, []string{"", "/v1", "/v2", "/v11", "/v3", "/api"}) + pick(r, []string{"/x", "/x/5", "/y", "/y/zk", "/", "/api/7", "/nope", "/v1/x"}),
+			Path: pick(r, []string{"", "/v1", "/v2", "/v11", "/v3", "/api"}) + pick(r, []string{"/x", "/x/5", "/y", "/y/zk", "/", "/api/7", "/nope", "/v1/x", "", ""}), // also exactly a version, and the empty path
 			Host: pick(r, []string{"a.com", "b.com", "zz.c.com", "api.a.com", "d.com", "7.e.com", "other.org", "A.COM:80", "a.com:http", "b.com:80a", "d.com:-1", "api.a.com:"})}
 		if r.Pct(50) {
 			q.Hdr = map[string]string{"Accept": pick(r, []string{"application/json; version=1", "application/json; version=2", "text/html", "application/json; version=3",
@@ -891,8 +900,13 @@ func matchOnce(m mux.Matcher, q Req, st refState) (ok bool, after refState) {
 	catch(func() {
 		ctx := types.NewContext()
 		defer ctx.Destroy()
-		for k, v := range st.params {
-			ctx.Set(k, v)
+		pk := make([]string, 0, len(st.params))
+		for k := range st.params {
+			pk = append(pk, k)
+		}
+		sortStrings(pk)
+		for _, k := range pk {
+			ctx.Set(k, st.params[k])
 		}
 		ok = m.Match(req, ctx)
 		after = refState{path: req.URL.Path, params: snapshotParams(ctx)}
